@@ -648,3 +648,47 @@ package badger
 //@   assert[pointer-decoded] before call Decode#1 : arg1 == item.vptr
 //@   assert[read-at-pointer] before call Read : arg1 == vp
 //@   assert[value-or-error] before return : called(Read#1) && ret2(Read#1) != nil ==> result2 != nil
+
+// ---- timestamps above every stored version (C11) ----
+
+//@ spec tsOf(key []byte) uint64 = len(key) <= 8 ? 0 : ver(key)
+
+// memTable.Put: the memtable's maxVersion is the maximum of the versions put into it (the
+// end-of-transaction marker goes to the WAL only and is not counted); the WAL is written first.
+//@ func (*memTable).Put
+//@   props C11 C10
+//@   requires mt.sl != nil
+//@   ensures[max-version] result == nil && value.Meta&bitFinTxn == 0 ==> mt.maxVersion == (tsOf(key) > old(mt.maxVersion) ? tsOf(key) : old(mt.maxVersion))
+//@   ensures[marker-not-counted] value.Meta&bitFinTxn != 0 ==> mt.maxVersion == old(mt.maxVersion)
+//@   ensures[error-not-counted] result != nil ==> mt.maxVersion == old(mt.maxVersion)
+//@   assert[wal-first] before call Put : mt.wal != nil ==> called(writeEntry#1)
+//@   assert[same-key-value] before call Put : arg0 == mt.sl && arg1 == key && arg2 == value
+//@   assigns inferred
+
+// DB.MaxVersion is at least the maxVersion of the active memtable (unless read-only), of every
+// immutable memtable and of every table.
+//@ func (*DB).MaxVersion
+//@   props C11
+//@   requires db.mt != nil || db.opt.ReadOnly
+//@   requires forall i int :: 0 <= i && i < len(db.imm) ==> db.imm[i] != nil
+//@   ensures[active] !db.opt.ReadOnly ==> result >= old(db.mt.maxVersion)
+//@   ensures[immutable] forall i int :: 0 <= i && i < old(len(db.imm)) ==> result >= old(db.imm[i].maxVersion)
+//@   assert[tables] before return : forall i int :: 0 <= i && i < len(ret(Tables#1)) ==> result >= ret(Tables#1)[i].MaxVersion
+//@   assigns inferred
+//@   loop 1 invariant[active] !db.opt.ReadOnly ==> maxVersion >= db.mt.maxVersion
+//@   loop 1 invariant[seen] forall i int :: 0 <= i && i <= rangeindex ==> maxVersion >= db.imm[i].maxVersion
+//@   loop 1 invariant[range] rangeindex < len(db.imm) && held(db.lock)
+//@   loop 2 invariant[kept] (!db.opt.ReadOnly ==> maxVersion >= old(db.mt.maxVersion)) && forall i int :: 0 <= i && i < old(len(db.imm)) ==> maxVersion >= old(db.imm[i].maxVersion)
+//@   loop 2 invariant[seen] forall i int :: 0 <= i && i <= rangeindex ==> maxVersion >= ret(Tables#1)[i].MaxVersion
+//@   loop 2 invariant[range] rangeindex < len(ret(Tables#1))
+
+// Open: the next timestamp is one more than the maximum stored version: it is set from
+// DB.MaxVersion after the memtables were replayed, is not touched until it is incremented, and
+// the watermarks are told about exactly that value.
+//@ func Open
+//@   props C11
+//@   light
+//@   assert[from-max-version] before call open : db.orc.nextTxnTs == ret(MaxVersion#1)
+//@   assert[marks-at-max-version] before call Done#1 : arg1 == ret(MaxVersion#1) && arg0 == db.orc.txnMark
+//@   assert[read-mark-at-max-version] before call Done#2 : arg1 == ret(MaxVersion#1) && arg0 == db.orc.readMark
+//@   assert[untouched-until-increment] before call incrementNextTs : arg0 == db.orc && db.orc.nextTxnTs == ret(MaxVersion#1)
